@@ -237,6 +237,9 @@ def run(pid, tier, seed, workdir, replay, skip_lean, t0):
           f"cases {ctx.evaluations} (distinct non-trivial {len(ctx.nontrivial_keys)}), "
           f"impl traces {ctx.impl_traces}, disagreements {len(ctx.disagreements)}, "
           f"monitor failures {len(ctx.monitor_failures)}, wall {time.time()-t0:.1f}s")
+    if os.environ.get("VERIF_DEBUG"):
+        for d in ctx.disagreements[:12]:
+            print("DISAGREE", json.dumps(d, default=str)[:700])
     return 1 if violations else 0
 
 
